@@ -2,7 +2,7 @@ CONSTANTS
   Part = "once"
   G = {"g1"}
   Programs <- ProgOne
-  NExch = 1  WholeCall = TRUE  Locked = TRUE
+  NExch = 1  WholeCall = TRUE  Locked = TRUE  NotifyInside = TRUE
   V = {"v1"} DocOf <- DocOf1 SignTime <- SignTimeAB ValidAt <- ValidAtAB PerCallContext = TRUE
   C = {"c1", "c2", "c3", "c4"}
 INIT Init
